@@ -53,7 +53,7 @@ def main():
             bad.append(name)
     json.dump(res, open(os.path.join(V, "benign", "RESULTS.json"), "w"), indent=1)
     # regenerate lean/Cpl/Gen from the clean tree
-    for tool in ("translate.py", "py2lean.py", "py2lean_typed.py", "py2lean_frag.py"):
+    for tool in ("translate.py", "py2lean.py", "py2lean_typed.py", "py2lean_frag.py", "py2lean_comp.py"):
         sh([sys.executable, os.path.join(V, "tools", tool), "--repo", "/repo", "--out", os.path.join(V, "lean", "Cpl", "Gen")])
     print("silent on %d / %d; false alarms: %s" % (len(dirs) - len(bad), len(dirs), bad))
     sys.exit(1 if bad else 0)
